@@ -96,7 +96,13 @@ func (v *VerifClient) Written() [][]byte {
 			case []byte:
 				out = append(out, m)
 			case closeMessage:
-				out = append(out, []byte(fmt.Sprintf(`{"type":"__close","value":%q}`, string(m.data))))
+				code, text := 0, ""
+				if len(m.data) >= 2 {
+					code = int(m.data[0])<<8 | int(m.data[1])
+					text = string(m.data[2:])
+				}
+				b, _ := json.Marshal(map[string]any{"type": "__close", "code": code, "value": text})
+				out = append(out, b)
 			default:
 				out = append(out, []byte(`{"type":"__unknown"}`))
 			}
